@@ -107,7 +107,7 @@ def code_chunks(min_chunks=1, max_chunks=24):
     return st.lists(chunk(), min_size=min_chunks, max_size=max_chunks)
 
 
-SECTION_NAMES = [".text", ".text.hot", ".text.unlikely", ".init", ".fini", ".plt", ".plt.got", ".data", ".rodata", "my_sec", ".text.startup", "INIT", "PAGE", ".text.ISR", "My_Code"]
+SECTION_NAMES = [".text", ".text.hot", ".text.unlikely", ".init", ".fini", ".plt", ".plt.got", ".data", ".rodata", "my_sec", ".text.startup", "INIT", "PAGE", ".text.ISR", "My_Code", "cold code", "it's"]
 
 
 @st.composite
